@@ -376,6 +376,9 @@ pub fn cell_set(rng: &mut Rng, flavour: &str) -> Vec<MCell> {
         }
         _ => panic!("unknown cell set flavour {flavour}"),
     }
+    if out.is_empty() {
+        out.push(random_root(rng));
+    }
     out
 }
 
